@@ -60,8 +60,8 @@ mut("m06_the_first_solution", "C06", "symbolic.py",
     "the(...) ignores further solutions whose binding has more than 3 entries (returns the first instead of raising)")
 # ---- C07
 mut("m07_domain_materialised", "C07", "hashed_data.py",
-    "            self.iterable = (HashedValue(v) if not isinstance(v, HashedValue) else v for v in iterable)\n\n    def get",
-    "            self.iterable = (HashedValue(v) if not isinstance(v, HashedValue) else v for v in list(iterable))\n\n    def get",
+    "            self.iterable = self._hashing_(iterable)\n\n    @staticmethod",
+    "            self.iterable = self._hashing_(list(iterable))\n\n    @staticmethod",
     "set_iterable materialises the supplied iterable with list() (the whole one-shot domain is pulled at declaration... lazily at first use)")
 mut("m07_type_filter_eager", "C07", "predicate.py",
     "        domain = From(filter(lambda v: isinstance(v, symbolic_cls), domain.domain))",
@@ -149,8 +149,8 @@ mut("m19_index_truthiness", "C19", "symbolic.py",
     "indexed values (x.tags[0], x.d['p']) are filtered by truthiness again")
 # ---- C20
 mut("m20_retrieve_skips_wildcard_when_concrete", "C20", "cache_data.py",
-    "            if wildcard is not None:\n                yield from self._yield_result(assignment, wildcard, key_idx, copy(result))",
-    "            if wildcard is not None and concrete is None:\n                yield from self._yield_result(assignment, wildcard, key_idx, copy(result))",
+    "            if wildcard is not _ABSENT:\n                yield from self._yield_result(assignment, wildcard, key_idx, copy(result))",
+    "            if wildcard is not _ABSENT and concrete is _ABSENT:\n                yield from self._yield_result(assignment, wildcard, key_idx, copy(result))",
     "retrieve prefers the concrete branch and skips the wildcard branch when both exist")
 mut("m20_seen_reverse_inclusion", "C20", "cache_data.py",
     "            if all(assignment[k] == v if k in assignment else False for k, v in constraint.items()):",
